@@ -16,11 +16,12 @@ import (
 )
 
 const (
-	clientMaxTracksPerStream     = 10
-	clientMPEGTSSampleQueueSize  = 100
-	clientLiveInitialDistance    = 3
-	clientLiveMaxDistanceFromEnd = 5
-	clientMaxDTSRTCDiff          = 10 * time.Second
+	clientMaxTracksPerStream       = 10
+	clientMPEGTSSampleQueueSize    = 100
+	clientLiveInitialDistance      = 3
+	clientLiveMaxDistanceFromEnd   = 5
+	clientMaxDTSRTCDiff            = 10 * time.Second
+	clientLowLatencyMaxQueuedParts = 10
 )
 
 // ErrClientEOS is returned by Wait() when the stream has ended.
